@@ -189,7 +189,7 @@ def part_sites(ctx, drv):
             continue
         if not r['ok']:
             ctx.fail(f'text at site {site} does not survive render->parse ({r["how"]})',
-                     {'op': 'site', 'site': site, 't': t}, reason=py_reason, detail=r.get('detail'))
+                     {'op': 'site', 'site': site, 't': t}, reason=py_reason, how=site + ':' + r['how'], detail=r.get('detail'))
         elif py_reason is not None:
             ctx.count('sites:out-of-domain-but-survived')
 
